@@ -98,6 +98,26 @@ def xorClassicalBias (m n : Nat) (D : Nat → Nat → Rat) : Rat :=
 /-- `Σ_{x,y} prob x y` -/
 def totalProb (m n : Nat) (prob : Nat → Nat → Rat) : Rat := sumN m fun x => sumN n fun y => prob x y
 
+/-! ## Fast exact classical value: enumerate ONE player's sign vectors, best response of the other
+
+This is also how `NonlocalGame.classical_value` proceeds (`process_iteration`: one player's answer functions are enumerated, the other
+player's best answer is taken question by question): `2^m · m · n` operations instead of `2^(m+n) · m · n`. -/
+
+/-- `|q|` -/
+def rabs (a : Rat) : Rat := if a < 0 then -a else a
+
+/-- for Alice's sign vector number `k` (bits of `k`, `m` bits): `Σ_y |Σ_x s_x D[x,y]|`, the bias against Bob's best response -/
+def bestResponse (m n : Nat) (D : Nat → Nat → Rat) (k : Nat) : Rat :=
+  sumN n fun y => rabs (sumN m fun x => negOnePow (bits m k x) * D x y)
+
+/-- classical bias by one-sided enumeration: `max_{s ∈ {±1}^m} Σ_y |Σ_x s_x D[x,y]|` -/
+def xorClassicalBiasBR (m n : Nat) (D : Nat → Nat → Rat) : Rat :=
+  maxUpTo (2 ^ m - 1) fun k => bestResponse m n D k
+
+/-- classical value of the XOR game (0/1 predicate) through the fast bias: `Σπ/2 + bias/2` -/
+def xorClassicalValueBR (m n : Nat) (prob : Nat → Nat → Rat) (pred : Nat → Nat → Nat) : Rat :=
+  totalProb m n prob / 2 + xorClassicalBiasBR m n (dMat prob pred) / 2
+
 /-! ## `XORGame.__init__`: default tolerance and the three guards -/
 
 /-- `np.finfo(float).eps = 2⁻⁵²` -/
